@@ -60,6 +60,7 @@ func (t *SymbolTable) Define(name string) *Symbol {
 	}
 	t.store[name] = symbol
 	t.updateMaxDefs(symbol.Index + 1)
+	verifSym("Define", t, name, symbol, 0, true)
 	return symbol
 }
 
@@ -76,6 +77,7 @@ func (t *SymbolTable) DefineBuiltin(index int, name string) *Symbol {
 	}
 	t.store[name] = symbol
 	t.builtinSymbols = append(t.builtinSymbols, symbol)
+	verifSym("DefineBuiltin", t, name, symbol, 0, true)
 	return symbol
 }
 
